@@ -710,6 +710,34 @@ fn c11(seed: u64, n: usize, out: &mut Out, oracle_only: bool) {
             ),
         }
     }
+    // queries with ill-scoped tags that a correct frontend REFUSES (tag used before its definition, count
+    // tag used by the fold's own parent vertex or by an earlier sibling, tag defined inside a fold used
+    // outside it, unknown tag): if one is ever accepted, its IR goes through the wf oracle below
+    let ill_scoped: Vec<String> = {
+        let mut v = vec![];
+        for root in ["Thing", "Item", "Box"] {
+            for e in ["link", "next", "parent"] {
+                for op in ["<", ">=", "="] {
+                    v.push(format!("query {{ {root} {{ id @filter(op: \"{op}\", value: [\"%c\"]) @output {e} @fold @transform(op: \"count\") @tag(name: \"c\") }} }}"));
+                    v.push(format!("query {{ {root} {{ id @output next {{ id @filter(op: \"{op}\", value: [\"%c\"]) @output(name: \"n\") }} {e} @fold @transform(op: \"count\") @tag(name: \"c\") }} }}"));
+                    v.push(format!("query {{ {root} {{ id @filter(op: \"{op}\", value: [\"%t\"]) @output {e} {{ id @tag(name: \"t\") @output(name: \"n\") }} }} }}"));
+                    v.push(format!("query {{ {root} {{ id @output {e} @fold {{ id @tag(name: \"t\") @output(name: \"n\") }} next {{ id @filter(op: \"{op}\", value: [\"%t\"]) @output(name: \"m\") }} }} }}"));
+                    v.push(format!("query {{ {root} {{ id @output {e} @fold {{ id @filter(op: \"{op}\", value: [\"%c\"]) @output(name: \"n\") }} link @fold @transform(op: \"count\") @tag(name: \"c\") @output(name: \"k\") }} }}"));
+                }
+            }
+        }
+        v
+    };
+    for text in &ill_scoped {
+        match std::panic::catch_unwind(std::panic::AssertUnwindSafe(|| trustfall_core::frontend::parse(&schema, text))) {
+            Ok(Ok(ix)) => {
+                out.count("ill-scoped-tag:ACCEPTED");
+                srcs.push(Src { label: "ill-scoped-accepted".into(), input: json!({"query": text}), features: 3, ir: ix.ir_query.clone() });
+            }
+            Ok(Err(_)) => out.count("ill-scoped-tag:refused"),
+            Err(_) => out.count("ill-scoped-tag:frontend-panicked"),
+        }
+    }
     out.count_n("gen:attempts", stats.generated);
     out.count_n("gen:frontend-rejected", stats.frontend_rejected);
     out.count_n("gen:frontend-panicked", stats.frontend_panicked);
